@@ -26,11 +26,11 @@ build_target() {
   if [ -f "$OUT/.done" ]; then return 0; fi
   rm -rf "$OUT"; mkdir -p "$OUT"
   RUSTC_BOOTSTRAP=1 rustc +nightly --edition=2024 --crate-name core --crate-type rlib --emit=metadata \
-     --target $T "$@" -Zforce-unstable-if-unmarked -C panic=abort -Awarnings $SRC/core/src/lib.rs --out-dir $OUT
+     --target $T "$@" -Zforce-unstable-if-unmarked -Zalways-encode-mir -C panic=abort -Awarnings $SRC/core/src/lib.rs --out-dir $OUT
   RUSTC_BOOTSTRAP=1 rustc +nightly --edition=2021 --crate-name compiler_builtins --crate-type rlib --emit=metadata \
      --target $T "$@" -Zforce-unstable-if-unmarked -C panic=abort -Awarnings --sysroot $SYS build/cb_stub.rs --out-dir $OUT
   RUSTC_BOOTSTRAP=1 rustc +nightly --edition=2024 --crate-name alloc --crate-type rlib --emit=metadata \
-     --target $T "$@" -Zforce-unstable-if-unmarked -C panic=abort -Awarnings --sysroot $SYS $SRC/alloc/src/lib.rs --out-dir $OUT
+     --target $T "$@" -Zforce-unstable-if-unmarked -Zalways-encode-mir -C panic=abort -Awarnings --sysroot $SYS $SRC/alloc/src/lib.rs --out-dir $OUT
   touch "$OUT/.done"
   echo "sysroot $T ok"
 }
